@@ -162,6 +162,29 @@ struct H {
         const T mu2 = reb.ShearModulus().Value(), la2 = reb.LameFirstModulus().Value();
         vf::stat("constructor_checks");
         const std::string base = std::string("ctor=") + c.name;
+        const ML g = c.ref(pr.first, pr.second);
+        // The pair as reported (rounded to T) must itself denote an admissible material: next to nu = 1/2 in float, E rounds to
+        // exactly 3 mu, which is the incompressible limit (lambda infinite) and no longer an input the statement covers. Decided
+        // by the exact function of the pair, never by what the library returns. (0/0 - a pair that determines nothing - is NaN
+        // here and is NOT skipped.)
+        if (isinfq(g.mu) || isinfq(g.la) || g.mu <= 0 || g.la < 0) {
+          vf::stat("skipped_rounded_pair_not_admissible");
+          continue;
+        }
+        // ... and must not sit within 4 ulps of the incompressible pole (lambda -> +-infinity): there the exact function of the
+        // pair changes without bound inside the ulp lattice the tolerance is taken over, so every answer is within tolerance
+        if (g.la > 1024 * g.mu) {
+          bool pole = false;
+          for (int i = -4; i <= 4 && !pole; i++)
+            for (int j = -4; j <= 4 && !pole; j++) {
+              const ML h = c.ref(vf::step(pr.first, i), vf::step(pr.second, j));
+              pole = isinfq(h.la) || isinfq(h.mu) || h.la < 0 || h.mu <= 0;
+            }
+          if (pole) {
+            vf::stat("skipped_pair_within_4ulp_of_incompressible_pole");
+            continue;
+          }
+        }
         if (std::isnan(mu2) || std::isnan(la2) || std::isinf(mu2) || std::isinf(la2)) {
           vf::viol(base + "|nu=" + nukey(mt.nu) + "|non-finite",
                    std::string("{\"constructor\":") + vf::jstr(c.name) + ",\"numeric_type\":" + vf::jstr(vf::TName<T>::value) + ",\"material_mu\":" + vf::jstr(vf::hex(mt.mu)) +
@@ -169,7 +192,6 @@ struct H {
                        vf::jstr(vf::hex(pr.second)) + "],\"rebuilt_mu\":" + vf::jstr(vf::dec(mu2)) + ",\"rebuilt_lambda\":" + vf::jstr(vf::dec(la2)) + "}");
           continue;
         }
-        const ML g = c.ref(pr.first, pr.second);
         // R3: accepted error = largest change of the exact result over the lattice of ulp offsets {-4..4}^2 of the pair,
         // floored at 4 ulp of the material's scale
         f128 smu = 0, sla = 0;
